@@ -513,7 +513,7 @@ void run(size_t idx) {
 }
 
 MonReg reg({"C06", "exploration",
-			"operations AddBlock / DeleteBlock / ReplaceBlock / SetBlockOrder / DeleteBlockByType(orphanedOnly on|off) / NiHeader::DeleteUnreferencedBlocks<NiObject|NiNode> / "
+			"operations AddBlock / DeleteBlock(index) / DeleteBlock(reference object stored in a block) / ReplaceBlock / SetBlockOrder / DeleteBlockByType(orphanedOnly on|off) / NiHeader::DeleteUnreferencedBlocks<NiObject|NiNode> / "
 			"NifFile::DeleteUnreferencedBlocks<NiObject|NiExtraData>. Exhaustive: every sequence up to length 3 (quick) / 4 (thorough) over the state-dependent op alphabet on five "
 			"generated graphs (empty, one block, 4, 6 and 7 blocks with refs, back-pointers, a loose block and a controller) in OB, SK and FO4; random: sequences of 25 (40) ops on real, "
 			"synthesised and API-built models. After every single op the library state is compared with an executable reference model of an indexed object graph built from the verified "
